@@ -11,7 +11,9 @@ import sys
 
 REPO = os.environ.get('VERIF_REPO', '/repo')
 ROOT = os.path.dirname(os.path.dirname(os.path.abspath(__file__)))
-BUILD = os.path.join(ROOT, '.build')
+# development aid: VERIF_REPO=<scratch worktree> builds into its own tree so that a seeded change can be tried while /repo is in use
+BUILD = os.path.join(ROOT, '.build' if REPO == '/repo' else '.build-' + ''.join(c if c.isalnum() else '_' for c in REPO))
+OUT = os.environ.get('VERIF_OUT', ROOT)      # where evidence/ and replays/ are written (development aid)
 GUARD = 'UNCRUSTIFY_VERIF'
 
 KINDS = {
